@@ -920,6 +920,91 @@ static void run_c08(const vf::Args &args, Report &rep)
     rep.cls("family:merkle_configs", mineidx.size());
 }
 
+// C08: several plain threads build their own trees at the same time (each builder opens its own parallel regions)
+static void call_builder(const TreeCfg &c, El *T, El *I)
+{
+    switch (c.builder)
+    {
+    case 0: PoseidonGoldilocks::merkletree_seq(T, I, c.cols, c.rows, c.threads, c.dim); break;
+    case 1: PoseidonGoldilocks::merkletree_avx(T, I, c.cols, c.rows, c.threads, c.dim); break;
+    case 3: PoseidonGoldilocks::merkletree(T, I, c.cols, c.rows, c.threads, c.dim); break;
+    case 4: PoseidonGoldilocks::merkletree_batch_seq(T, I, c.cols, c.rows, c.batch, c.threads, c.dim); break;
+    case 5: PoseidonGoldilocks::merkletree_batch_avx(T, I, c.cols, c.rows, c.batch, c.threads, c.dim); break;
+    case 7: PoseidonGoldilocks::merkletree_batch(T, I, c.cols, c.rows, c.batch, c.threads, c.dim); break;
+#ifdef __AVX512__
+    case 2: PoseidonGoldilocks::merkletree_avx512(T, I, c.cols, c.rows, c.threads, c.dim); break;
+    case 6: PoseidonGoldilocks::merkletree_batch_avx512(T, I, c.cols, c.rows, c.batch, c.threads, c.dim); break;
+#endif
+    default: break;
+    }
+}
+static void run_c08_concurrent(const vf::Args &args, Report &rep)
+{
+    if (verif_omp_set_mode) return; // real runtime only (the stand-in keeps one global team description)
+    Ref ref;
+    gen::G64 g;
+    uint64_t rounds = args.getu("concurrent_rounds", args.thorough() ? 600 : 48);
+    std::vector<uint64_t> mine;
+    for (uint64_t r = 0; r < rounds; r++) if ((int)(r % args.nshards) == args.shard) mine.push_back(r);
+    vf::ForkCfg fc;
+    fc.group = 8; fc.case_timeout = 120; fc.nofork = args.nofork; fc.errdir = args.errdir; fc.family = "merkle_concurrent_callers";
+    vf::run_forked(rep, mine.size(), fc,
+        [&](uint64_t i) { return J().str("op", "trees built by plain threads at the same time").u("round", mine[i]).done(); },
+        [&](uint64_t) { return std::string("C08:concurrent-callers"); },
+        [&](uint64_t i, Report &rp) {
+            const int T = 4;
+            Rng r(vf::mix64(args.seed, 0xC08C + mine[i] * 977));
+            struct Job { TreeCfg c; std::vector<uint64_t> in, exp, got; int bad = 0; uint64_t badk = 0; };
+            std::vector<Job> jobs(T);
+#ifdef __AVX512__
+            const int NB = 8;
+#else
+            static const int AVX2B[] = {0, 1, 3, 4, 5, 7};
+            const int NB = 6;
+#endif
+            int same = (int)r.below(3) == 0 ? (int)r.below(NB) : -1; // a third of the rounds: all members use the same builder
+            for (auto &j : jobs)
+            {
+                int b = same >= 0 ? same : (int)r.below(NB);
+#ifndef __AVX512__
+                b = AVX2B[b];
+#endif
+                j.c.builder = b;
+                j.c.rows = 1ULL << r.below(6);
+                static const uint64_t COLS[] = {0, 1, 3, 5, 9, 17, 65};
+                j.c.cols = COLS[r.below(7)];
+                j.c.dim = 1 + r.below(3);
+                j.c.batch = 1 + r.below(9);
+                j.c.threads = (int)r.below(4);
+                uint64_t n = j.c.rows * j.c.cols * j.c.dim;
+                j.in.resize(n + 1);
+                for (uint64_t k = 0; k < n; k++) j.in[k] = r.coin() ? r.next() : g.pick(r);
+                ref_tree(ref, j.exp, j.in, j.c, b >= 4);
+                j.got.assign(j.exp.size(), 0x7E7E7E7E7E7E7E7EULL);
+            }
+            vf::team(T, [&](int me) {
+                Job &j = jobs[me];
+                for (int rep_i = 0; rep_i < 3 && !j.bad; rep_i++)
+                {
+                    std::fill(j.got.begin(), j.got.end(), 0x7E7E7E7E7E7E7E7EULL);
+                    call_builder(j.c, (El *)j.got.data(), (El *)j.in.data());
+                    for (uint64_t k = 0; k < j.exp.size(); k++)
+                        if (orc::canon(j.got[k]) != orc::canon(j.exp[k])) { j.bad = 1; j.badk = k; break; }
+                }
+            });
+            for (auto &j : jobs)
+            {
+                if (j.bad)
+                    rp.violation(std::string("C08:") + BN[j.c.builder] + ":concurrent-callers:wrong-tree", J().raw("cfg", j.c.json()).u("element", j.badk).h("got", j.got[j.badk]).h("expected", j.exp[j.badk])
+                                                                                                              .str("what", "4 plain threads building their own trees at the same time").done());
+                rp.cls(std::string("concurrent:builder:") + BN[j.c.builder]);
+            }
+            rp.evaluations += T * 3;
+            rp.cls("family:concurrent_callers", T * 3);
+            rp.nontrivial(vf::mix64(mine[i], 0xC08C));
+        });
+}
+
 // C06: the entry points called at the same time by several plain threads (not an OpenMP team), every thread on its own states
 static void run_c06_concurrent(const vf::Args &args, Report &rep)
 {
@@ -1041,7 +1126,7 @@ int main(int argc, char **argv)
         else { run_c06(args, rep); run_c06_concurrent(args, rep); }
     }
     else if (what == "C07") { run_c07(args, rep); run_c07_concurrent(args, rep); }
-    else if (what == "C08") run_c08(args, rep);
+    else if (what == "C08") { run_c08(args, rep); run_c08_concurrent(args, rep); }
     else if (what == "tablehash") { printf("0x%016llxULL\n", (unsigned long long)table_hash()); return 0; }
     else { fprintf(stderr, "unknown --prop\n"); return 3; }
     if (verif_omp_stats)
